@@ -1265,12 +1265,46 @@ class PArr(object):
         self.transposed = transposed
 
 
+class LayoutArr(object):
+    """A 2 x 2 array stored in Fortran order (what `element` wraps without
+    copying when it is given transposed data): `items[a][b]` is the entry
+    with logical index (a, b)."""
+
+    def __init__(self, items):
+        self.items = items
+
+    def flat(self, order='C'):
+        n0, n1 = len(self.items), len(self.items[0])
+        if order == 'C':
+            return [self.items[a][b] for a in range(n0) for b in range(n1)]
+        # 'F', and 'A' / 'K' (memory order of an F-contiguous array)
+        return [self.items[a][b] for b in range(n1) for a in range(n0)]
+
+
 class DH(FH):
     def on_getattr(self, interp, obj, name):
         if isinstance(obj, PArr) and name == 'T':
             return PArr(obj.cols, not obj.transposed)
         if isinstance(obj, SArr) and name == 'ravel':
-            return Builtin('ravel', lambda: obj)
+            return Builtin('ravel', lambda order='C': obj)
+        if isinstance(obj, LayoutArr):
+            if name in ('ravel', 'flatten'):
+                return Builtin(name, lambda order='C': SArr(obj.flat(
+                    order if isinstance(order, str) else 'C')))
+            if name == 'reshape':
+                def rs(*shape, **k):
+                    if shape in ((-1,), ((-1,),)):
+                        return SArr(obj.flat(k.get('order', 'C')))
+                    raise Undecided('reshape of the displacement to %r'
+                                    % (shape,))
+                return Builtin('reshape', rs)
+            if name == 'T':
+                return LayoutArr([list(r) for r in zip(*obj.items)])
+            if name == 'shape':
+                return (len(obj.items), len(obj.items[0]))
+            if name == 'size':
+                return len(obj.items) * len(obj.items[0])
+            raise Undecided('attribute %s of the displacement array' % name)
         if isinstance(obj, Rec) and obj.kind in ('interpolated', 'out') \
                 and name == 'reshape':
             return Builtin('reshape', lambda shape: Rec(
@@ -1309,7 +1343,9 @@ def deform(rep, model):
         cons = 'linear_deform%s' % (':out' if with_out else '')
         h = DH()
         I = DI(model, {}, h)
-        npts, d = 2, 2
+        # a 2 x 2 grid: four points in C order; the displacement components
+        # are 2 x 2 arrays stored in Fortran order
+        npts, d = 4, 2
         P = [[Rat.var('p%d_%d' % (j, i)) for j in range(npts)]
              for i in range(d)]
         V = [[Rat.var('v%d_%d' % (j, i)) for j in range(npts)]
@@ -1319,7 +1355,9 @@ def deform(rep, model):
         sp.attrs['points'] = Builtin('points', lambda: pts)
         templ = Rec('template', space=sp)
         disp = [Rec('disp%d' % i, asarray=Builtin(
-            'asarray', lambda i=i: SArr(list(V[i])))) for i in range(d)]
+            'asarray', lambda i=i: LayoutArr(
+                [[V[i][2 * a + b] for b in range(2)] for a in range(2)])))
+            for i in range(d)]
         out = Rec('out') if with_out else None
         try:
             r = I.call_func(Func(fn, I.env_of(LD), None),
